@@ -12,6 +12,7 @@ mod c04;
 mod verify;
 mod datetime;
 mod pae;
+mod rules;
 
 pub fn err_name(e: &in_toto::Error) -> String {
     let d = format!("{:?}", e);
@@ -60,6 +61,7 @@ fn main() {
             "verify" => verify::run(&pool, sc),
             "parse_datetime" => datetime::run(sc),
             "pae" => pae::run(sc),
+            "rules" => rules::run(sc),
             _ => json!({"outcome": "unsupported-kind"}),
         });
         out.push(r);
